@@ -45,6 +45,11 @@ func TestCheck(t *testing.T) {
 		for i := 0; i < env.N(8, 4); i++ {
 			scs = append(scs, sysrun.Gen(rm.Fork(), sysrun.GenOpts{MaxOps: 4, Many: true, MultiInt: i%2 == 0}))
 		}
+		// long repeat intervals under a non-default retention: > 5 days of virtual time with the log's GC running
+		rl := vh.NewRand(env.Seed + 91170)
+		for i := 0; i < env.N(8, 3); i++ {
+			scs = append(scs, sysrun.GenLongRepeat(rl.Fork()))
+		}
 	}
 	for i := range scs {
 		sc := &scs[i]
